@@ -35,6 +35,8 @@ THEOREMS = [
     "MCHap.C02.callW_sort",
     "MCHap.C02.mhProbs_entry",
     "MCHap.C02.mh_db",
+    "MCHap.C02.call_compound_step_invariant",
+    "MCHap.C02.call_sampler_invariant",
 ]
 RULE = ("cases: random known-haplotype sets (1..6 haplotypes over 1..4 SNVs, shared and unique SNV patterns), ploidy 1..6, "
         "frequencies {None, flat array, skewed, with zero entries, tiny (1e-3..1e-12)}, inbreeding {0,.01,.25,.5,.9}, reads with gaps/counts "
